@@ -1,14 +1,19 @@
 #!/usr/bin/env python3
-"""tools/runall.py [--tier quick] [--seeds 0,1,2] [--props C01,C02]  — run the claimed checks on /repo and tabulate."""
+"""tools/runall.py [--tier quick] [--seeds 0,1,2] [--props C01,C02] [--jobs N]  — run the claimed checks on /repo and tabulate.
+With --jobs > 1 different properties run concurrently (one property's seeds stay sequential: they share generated files)."""
 import argparse, json, os, subprocess, sys, time
+from concurrent.futures import ThreadPoolExecutor
 HERE = os.path.dirname(os.path.dirname(os.path.abspath(__file__)))
 ap = argparse.ArgumentParser()
 ap.add_argument("--tier", default="quick"); ap.add_argument("--seeds", default="0"); ap.add_argument("--props", default="")
+ap.add_argument("--jobs", type=int, default=1)
 a = ap.parse_args()
 man = json.load(open(os.path.join(HERE, "MANIFEST.json")))
 props = a.props.split(",") if a.props else [c["property_id"] for c in man["checks"]]
-bad = 0
-for p in props:
+
+
+def one(p):
+    bad = 0
     for s in a.seeds.split(","):
         t0 = time.time()
         r = subprocess.run([os.path.join(HERE, "check"), p, "--tier", a.tier], cwd=HERE, capture_output=True, text=True,
@@ -16,4 +21,9 @@ for p in props:
         tail = [l for l in r.stdout.splitlines() if l.startswith(("OK", "VIOLATION", "KNOWN"))]
         print(f"{p} seed={s} rc={r.returncode} {time.time()-t0:6.1f}s  " + " | ".join(tail)[:300], flush=True)
         bad += r.returncode != 0
+    return bad
+
+
+with ThreadPoolExecutor(max_workers=max(1, a.jobs)) as ex:
+    bad = sum(ex.map(one, props))
 sys.exit(1 if bad else 0)
